@@ -344,6 +344,13 @@ func (t *wal) AppendAndSync(entry *proto.LogEntry, callback func(err error)) {
 
 func (t *wal) rolloverSegment() error {
 	var err error
+	if t.syncData {
+		// The tail of the segment might not have been synced yet, and the
+		// next sync is only going to cover the new segment
+		if err = t.currentSegment.Flush(); err != nil {
+			return err
+		}
+	}
 	if err = t.currentSegment.Close(); err != nil {
 		return err
 	}
